@@ -73,14 +73,21 @@ def main() -> int:
             return 3
         rc, out = sh("/venv/bin/python -m compileall -q src", cwd=mut)
         meta["compiles"] = rc == 0
+        quick = "--no-suite" in args and (seed / "meta.json").exists()
+        if quick:
+            old = json.loads((seed / "meta.json").read_text())
+            for k in ("suite_with_change", "demo_with_change", "demo_without_change"):
+                if k in old:
+                    meta[k] = old[k]  # confirmed earlier; only the checks are re-run
         # suite
-        rc, out = sh("/venv/bin/python -m pytest -q -p no:cacheprovider --timeout=900 -p no:randomly 2>&1 | tail -40", cwd=mut, env={"PYTHONPATH": str(mut / "src")})
-        m = re.search(r"(\d+) failed, (\d+) passed", out)
-        failed, passed = (int(m.group(1)), int(m.group(2))) if m else (-1, -1)
-        sub = len(re.findall(r"SUBFAILED", out))
-        meta["suite_with_change"] = {"failed": failed, "passed": passed, "subfailed": sub, "is_baseline": failed == BASE_FAIL and passed == BASE_PASS and sub == 0}
+        if not quick:
+            rc, out = sh("/venv/bin/python -m pytest -q -p no:cacheprovider --timeout=900 -p no:randomly 2>&1 | tail -40", cwd=mut, env={"PYTHONPATH": str(mut / "src")})
+            m = re.search(r"(\d+) failed, (\d+) passed", out)
+            failed, passed = (int(m.group(1)), int(m.group(2))) if m else (-1, -1)
+            sub = len(re.findall(r"SUBFAILED", out))
+            meta["suite_with_change"] = {"failed": failed, "passed": passed, "subfailed": sub, "is_baseline": failed == BASE_FAIL and passed == BASE_PASS and sub == 0}
         # demo
-        if demo.exists():
+        if demo.exists() and not quick:
             rc_m, out_m = sh(f"/venv/bin/python {demo}", cwd=mut, env={"PYTHONPATH": str(mut / "src")}, timeout=300)
             rc_c, out_c = sh(f"/venv/bin/python {demo}", cwd=clean, env={"PYTHONPATH": str(clean / "src")}, timeout=300)
             meta["demo_with_change"] = {"exit": rc_m, "tail": out_m[-300:]}
